@@ -17,3 +17,7 @@ for _k, _v in NA_DESIGN.items():
 claim('C37', 'guard-dominance + typestate over clang AST/CFG; Python ast rules',
       'Decides, for every dlsym call site in the single backend TU, that a non-NULL test of the handle dominates it and that the closed branch raises; that every close of a stored handle is null-guarded and NULLs the field; that NULLing a lib handle implies clearing the attribute cache before the close result is reported; and the in-line FFILibrary close/accessor shape. All paths of the anchored functions are covered, which sampling access sequences cannot do.',
       'Trusts clang\'s AST, the CFG builder (all 15 statement kinds of the TU), and that callees do not overwrite struct fields between a guard and its use; does not decide what the dynamic loader does after dlclose.')
+
+claim('C22', 'CFG adjacency/ordering rules (nearest-call-before/after) on backend TU, wrapper TU and clang AST of generated wrappers; TLS storage attribute',
+      'Decides that the saved-errno slot is thread-local storage, that every foreign call made for the user (ffi_call, global-variable fetch, every generated _cffi_f_* wrapper of the probe corpus) has restore_errno as nearest effectful call before and save_errno as nearest after inside the GIL-released region, that callback entry points save first/restore last on all paths, the getter/setter ordering, export slots 13/14, and the embedding trampoline. Thread-locality for all interleavings follows from the storage class, which no schedule sampling can establish.',
+      'Assumes errno can only change through a call between two statements; generated wrappers are checked for the probe corpus (every integer/pointer/struct/void signature kind), not for every possible cdef; schedules are not explored.')
